@@ -109,34 +109,35 @@ type Policy struct {
 }
 
 type Op struct {
-	Kind   string
-	Caller string // "root" | "anon:<defect>" | "u:<access>"
-	B, K   string
-	Vid    string
-	SB, SK string
-	SVid   string
-	Put    *PutSpec
-	Canned string
-	Own    string
-	Lock   bool
-	Valid  bool
-	Policy *Policy
-	Tags   []KV
-	Keys   [][2]string
-	On     bool
-	Bypass bool
-	Now    int64
-	Mode   string // lock: "" | "G" | "C"
-	UpID   string
-	Prefix string
-	Token  string
-	Max    int // listBuckets: 0 = not sent (10000)
-	Num    int
-	Data   []Seg
-	Range  *[2]int
-	Parts  []PartRef
-	Days   int
-	Until  int64
+	Kind    string
+	Caller  string // "root" | "anon:<defect>" | "u:<access>"
+	B, K    string
+	Vid     string
+	SB, SK  string
+	SVid    string
+	SrcOver bool // spell the copy source with more percent-escapes than needed (the same source for S3)
+	Put     *PutSpec
+	Canned  string
+	Own     string
+	Lock    bool
+	Valid   bool
+	Policy  *Policy
+	Tags    []KV
+	Keys    [][2]string
+	On      bool
+	Bypass  bool
+	Now     int64
+	Mode    string // lock: "" | "G" | "C"
+	UpID    string
+	Prefix  string
+	Token   string
+	Max     int // listBuckets: 0 = not sent (10000)
+	Num     int
+	Data    []Seg
+	Range   *[2]int
+	Parts   []PartRef
+	Days    int
+	Until   int64
 }
 
 func hx(s string) string { return lib.HexS(s) }
@@ -477,6 +478,25 @@ func parseTags(body []byte) []KV {
 	return out
 }
 
+// copySource spells bucket/key for x-amz-copy-source; over=true escapes the slashes inside the key and every
+// second letter as well (an equivalent spelling: the header is percent-decoded once by the server)
+func copySource(bucket, key string, over bool) string {
+	if !over {
+		return gw.EncodePath(bucket + "/" + key)
+	}
+	var b strings.Builder
+	b.WriteString(gw.EncodePath(bucket) + "/")
+	for i := 0; i < len(key); i++ {
+		c := key[i]
+		if c == '/' || i%2 == 1 || !(c >= 'a' && c <= 'z' || c >= '0' && c <= '9') {
+			fmt.Fprintf(&b, "%%%02X", c)
+		} else {
+			b.WriteByte(c)
+		}
+	}
+	return b.String()
+}
+
 func tagQuery(tags []KV) string {
 	var p []string
 	for _, t := range tags {
@@ -814,7 +834,7 @@ func (w *World) Exec(o *Op) *Obs {
 		}
 	case "copyObject":
 		req.Method, req.Path = "PUT", kpath
-		src := gw.EncodePath(o.SB + "/" + o.SK)
+		src := copySource(o.SB, o.SK, o.SrcOver)
 		if o.SVid != "" {
 			src += "?versionId=" + o.SVid
 		}
@@ -994,7 +1014,7 @@ func (w *World) Exec(o *Op) *Obs {
 		fields = func(r gw.Resp) { obs.Fields = append(obs.Fields, KV{"etag", hx(r.Headers.Get("ETag"))}) }
 	case "uploadPartCopy":
 		req.Method, req.Path, req.Query = "PUT", kpath, fmt.Sprintf("uploadId=%s&partNumber=%d", gw.EncodeQueryValue(o.UpID), o.Num)
-		src := gw.EncodePath(o.SB + "/" + o.SK)
+		src := copySource(o.SB, o.SK, o.SrcOver)
 		if o.SVid != "" {
 			src += "?versionId=" + o.SVid
 		}
